@@ -238,7 +238,13 @@ class TwoElecKernel:
         top = 3 if tier == "quick" else 8
         for ls in itertools.product(range(4), repeat=4):
             if sum(ls) <= top:
-                out.append(dict(l=list(ls), K=[1, 1, 1, 1], M=[1, 1, 1, 1]))
+                # large quartets are split over workers: part [k, n] checks the outputs with index hash = k mod n
+                nparts = 1 if sum(ls) <= 5 else (4 if sum(ls) == 6 else (8 if sum(ls) == 7 else 16))
+                for k in range(nparts):
+                    sh = dict(l=list(ls), K=[1, 1, 1, 1], M=[1, 1, 1, 1])
+                    if nparts > 1:
+                        sh["part"] = [k, nparts]
+                    out.append(sh)
         out += [dict(l=[0, 0, 0, 0], K=[2, 1, 2, 1], M=[2, 1, 1, 2]), dict(l=[1, 0, 0, 0], K=[1, 2, 1, 1], M=[1, 2, 1, 1]),
                 dict(l=[0, 1, 1, 0], K=[1, 1, 1, 2], M=[1, 1, 2, 1], comps="reversed")]
         if tier == "thorough":
@@ -272,10 +278,15 @@ class TwoElecKernel:
         for ps in itertools.product(*[range(k) for k in K]):
             f = coulomb.two_electron(SF, *[ses[i][ps[i]] for i in range(4)], *[list(c) for c in scs])
             norms = [{c: basisfn.prim_norm(SF, ses[i][ps[i]], c) for c in comps[i]} for i in range(4)]
-            for idx in itertools.product(*[range(len(c)) for c in comps]):
+            for n_, idx in enumerate(itertools.product(*[range(len(c)) for c in comps])):
+                if shape.get("part") and n_ % shape["part"][1] != shape["part"][0]:
+                    continue
                 cc = [comps[i][idx[i]] for i in range(4)]
                 prim[ps, idx] = f(*cc) * norms[0][cc[0]] * norms[1][cc[1]] * norms[2][cc[2]] * norms[3][cc[3]]
-        for idx in itertools.product(*[range(len(c)) for c in comps]):
+        part = shape.get("part")
+        for n_, idx in enumerate(itertools.product(*[range(len(c)) for c in comps])):
+            if part and n_ % part[1] != part[0]:
+                continue
             for ms in itertools.product(*[range(m) for m in Mn]):
                 tot = SF.num(0)
                 for ps in itertools.product(*[range(k) for k in K]):
